@@ -112,7 +112,7 @@ fn bu_queue_pop_independent() { run_queue(4, false); }
 
 /// Scheduling by a changed resource: a reader and a writer of Cell(0) are each scheduled iff their own checker reports
 /// inconsistency, or fails (then the error is reported as well); consistent ones are not scheduled.
-//@h props=C04,C18,C09 tier=quick unwind=14 stubs=sort,optref,boxslice timeout=900 fieldsens=1024
+//@h props=C04,C18,C09:t tier=quick unwind=14 stubs=sort,optref,boxslice timeout=900 fieldsens=1024
 fn bu_schedule_affected_by_resource_iff_inconsistent() {
   let mut pie = Pie::with_tracker(());
   pie.resource_state_mut::<Cell>().set(CellState { v: CUR });
@@ -154,7 +154,7 @@ fn bu_schedule_affected_by_resource_iff_inconsistent() {
 /// The decision whether a requirer is scheduled after the required task produced `new_out`: consistent iff the
 /// dependency's own output checker accepts the new output against its stamp (early cut-off); an output of another type is
 /// never accepted.
-//@h props=C04,C09 tier=quick unwind=14 stubs=sort,optref,boxslice timeout=600 fieldsens=1024
+//@h props=C04,C09:t tier=quick unwind=14 stubs=sort,optref,boxslice timeout=600 fieldsens=1024
 fn bu_require_dependency_consistent_iff_checker_accepts() {
   let mut pie = Pie::with_tracker(Rec::default());
   let mut s = pie.new_session();
